@@ -1,5 +1,6 @@
 /* Virtual clock: wraps the time sources and the backend wait calls of the
  * statically linked libevent objects (see mk/Makefile WRAPS). */
+#include <errno.h>
 #include "vh.h"
 #include <sys/epoll.h>
 #include <poll.h>
@@ -50,6 +51,11 @@ int __wrap_gettimeofday(struct timeval *tv, void *tz)
 	return 0;
 }
 
+/* one-shot failure of the next backend wait (whatever the backend), e.g. EINTR */
+int vclk_fail_next_wait;
+long vclk_wait_failed;
+#define FAIL_WAIT_IF_PLANNED do { if (vclk_fail_next_wait) { int e_ = vclk_fail_next_wait; vclk_fail_next_wait = 0; vclk_wait_failed++; errno = e_; return -1; } } while (0)
+
 /* common tail: nothing was ready */
 static void slept(int64_t timeout_us)
 {
@@ -64,6 +70,7 @@ static void slept(int64_t timeout_us)
 int __wrap_epoll_wait(int epfd, struct epoll_event *ev, int max, int timeout)
 {
 	int r;
+	FAIL_WAIT_IF_PLANNED;
 	if (!vclk_on) return __real_epoll_wait(epfd, ev, max, timeout);
 	vclk_nwaits++;
 	if (vclk_wait_hook) vclk_wait_hook(VW_EPOLL, timeout < 0 ? -1 : (int64_t)timeout * 1000, &epfd, NULL, NULL, max);
@@ -74,6 +81,7 @@ int __wrap_epoll_wait(int epfd, struct epoll_event *ev, int max, int timeout)
 int __wrap_epoll_pwait(int epfd, struct epoll_event *ev, int max, int timeout, const sigset_t *ss)
 {
 	int r;
+	FAIL_WAIT_IF_PLANNED;
 	if (!vclk_on) return __real_epoll_pwait(epfd, ev, max, timeout, ss);
 	vclk_nwaits++;
 	if (vclk_wait_hook) vclk_wait_hook(VW_EPOLL, timeout < 0 ? -1 : (int64_t)timeout * 1000, &epfd, NULL, NULL, max);
@@ -86,6 +94,7 @@ int __wrap_epoll_pwait2(int epfd, struct epoll_event *ev, int max, const struct 
 	int r;
 	int64_t t;
 	struct timespec zero = {0, 0};
+	FAIL_WAIT_IF_PLANNED;
 	if (!vclk_on) return __real_epoll_pwait2(epfd, ev, max, ts, ss);
 	vclk_nwaits++;
 	/* the kernel sleeps at least the asked time: round ns up to us */
@@ -98,6 +107,7 @@ int __wrap_epoll_pwait2(int epfd, struct epoll_event *ev, int max, const struct 
 int __wrap_poll(struct pollfd *fds, nfds_t n, int timeout)
 {
 	int r;
+	FAIL_WAIT_IF_PLANNED;
 	if (!vclk_on) return __real_poll(fds, n, timeout);
 	vclk_nwaits++;
 	if (vclk_wait_hook) vclk_wait_hook(VW_POLL, timeout < 0 ? -1 : (int64_t)timeout * 1000, fds, NULL, NULL, (int)n);
@@ -110,6 +120,7 @@ int __wrap_select(int n, fd_set *r_, fd_set *w_, fd_set *e_, struct timeval *tv)
 	int r;
 	int64_t t;
 	struct timeval zero = {0, 0};
+	FAIL_WAIT_IF_PLANNED;
 	if (!vclk_on) return __real_select(n, r_, w_, e_, tv);
 	vclk_nwaits++;
 	t = tv ? (int64_t)tv->tv_sec * 1000000 + tv->tv_usec : -1;
